@@ -20,6 +20,7 @@ Scn(id, nodes, kind, impl, mode, icpt, prov, fprov, entry, reqs, rtype, owner, n
    canout |-> [n \in N |-> kind[n] \in {"fwd", "qsrc"}],
    canin |-> [n \in N |-> kind[n] # "qsrc"],
    canrel |-> [n \in N |-> kind[n] \in {"fwd", "sink"} /\ n \notin norel],
+   rereq |-> [n \in N |-> FALSE],
    side |-> [n \in N |-> "A"], entry |-> entry,
    reqs |-> reqs, rtype |-> rtype, owner |-> Fn(Range(reqs), owner, NONE)]
 
@@ -115,17 +116,31 @@ ScnS == [Scn("S", <<"p0", "qk", "qs", "s0">>,
             "r0" :> "uclock" @@ "r1" :> "sink_latency", NoF, {"p0"})
          EXCEPT !.side = [n \in {"p0", "qk", "qs", "s0"} |-> IF n \in {"qs", "s0"} THEN "B" ELSE "A"]]
 
-ScnInThread == {ScnA, ScnB, ScnC, ScnD, ScnE, ScnF}
+\* a pipe whose check call-back requires its other own requests again (as the check functions of pipes with
+\* flow format + buffer manager helpers do), a provider that answers at once, a forwarded application request
+\* behind them in the list: set_output must re-issue ALL of them although the list changes under its loop
+ScnH == [Scn("H", <<"v0", "p1", "p2", "s0">>,
+            "v0" :> "fwd" @@ "p1" :> "fwd" @@ "p2" :> "fwd" @@ "s0" :> "sink",
+            "v0" :> "vreqr" @@ "p1" :> "idem_ub" @@ "p2" :> "idem" @@ "s0" :> "sink",
+            "s0" :> "hold", NoF, NoF,
+            "p1" :> {"ubuf_mgr", "flow_format"},
+            {"v0"}, <<"r0", "r1", "r2">>,
+            "r0" :> "flow_format" @@ "r1" :> "ubuf_mgr" @@ "r2" :> "uclock",
+            "r0" :> "v0" @@ "r1" :> "v0", {"p1", "p2"})
+         EXCEPT !.rereq["v0"] = TRUE]
+
+ScnInThread == {ScnA, ScnB, ScnC, ScnD, ScnE, ScnF, ScnH}
 ScnBin == {ScnG}
 ScnQueue == {ScnQ, ScnR, ScnS}
 ScnAll == ScnInThread \cup ScnBin \cup ScnQueue
 
-ScnQuick == {ScnA, ScnB, ScnR}
+ScnQuick == {ScnA, ScnB, ScnR, ScnH}
 ScnQuickQ == {ScnR}
 ScnThorIn == ScnInThread
 ScnThorQ == {ScnQ, ScnR, ScnS}
 ScnOnlyA == {ScnA}
 ScnOnlyD == {ScnD}
+ScnOnlyH == {ScnH}
 TraceBoot == {ScnA}
 NoExplore == ngen < 0
 ViewCore == core
